@@ -492,4 +492,62 @@ func raceScenario(w *bufio.Writer) {
 	give(n3, cm2v1, cm0v1)
 	fmt.Fprintf(w, "NOTE race: views 1=%d 2=%d 3=%d heights %d %d %d\n", n1.d.ViewNumber, n2.d.ViewNumber, n3.d.ViewNumber, n1.height, n2.height, n3.height)
 	endRun(w, mon, n1, n2, n3)
+	lateForkScenario(w)
+}
+
+// the fork that would follow if a Commit arriving while the proposal is held but a transaction is still missing were left
+// unverified (third-round seeded change C01c): the equivocating primary Z (validator 1) gives R2 to j and k and R - with a
+// transaction i lacks - to i; the honest commits for block(R2) reach i after R but before the transaction. The library
+// verifies them against the header of R on arrival and drops them, so i never accepts block(R): no fork on the real code.
+func lateForkScenario(w *bufio.Writer) {
+	fmt.Fprintf(w, "RUN 2003 N 4 CFG 1000000 -1 0\n")
+	mon := newMonitor(2003)
+	mon.byz[1] = true
+	mk := func(id int) *node {
+		n := mkScenNode(mon, id, mkVals(4), -1, w)
+		n.start(0)
+		return n
+	}
+	i, j, k := mk(0), mk(2), mk(3)
+	i.missing = map[uint64]bool{1: true}
+	R := &Payload{dbft.PrepareRequestType, 1, 0, 1, prepReq{5000000, 1, []H{Tx(1).Hash()}}}
+	R2 := &Payload{dbft.PrepareRequestType, 1, 0, 1, prepReq{5000000, 2, []H{Tx(2).Hash()}}}
+	j.recv(R2)
+	k.recv(R2)
+	jOut := append([]*Payload{}, j.out...)
+	kOut := append([]*Payload{}, k.out...)
+	j.out, k.out = nil, nil
+	for _, p := range kOut {
+		j.recv(p)
+	}
+	for _, p := range jOut {
+		k.recv(p)
+	}
+	var commits []*Payload
+	for _, p := range append(append([]*Payload{}, j.out...), k.out...) {
+		if p.T == dbft.CommitType {
+			commits = append(commits, p)
+		}
+	}
+	// i holds Z's proposal R but not its transaction when the honest commits for block(R2) arrive
+	i.recv(R)
+	for _, p := range commits {
+		i.recv(p)
+	}
+	i.missing = nil
+	i.op("X 1", func() { i.d.OnTransaction(Tx(1)) })
+	blkR := &Block{idx: 1, prev: "", ts: 5000000, nonce: 1, hashes: []H{Tx(1).Hash()}}
+	i.recv(&Payload{dbft.CommitType, 1, 0, 1, commit{sigv{101, blkR.Hash()}}})
+	blkR2 := &Block{idx: 1, prev: "", ts: 5000000, nonce: 2, hashes: []H{Tx(2).Hash()}}
+	zc := &Payload{dbft.CommitType, 1, 0, 1, commit{sigv{101, blkR2.Hash()}}}
+	for _, p := range j.out {
+		k.recv(p)
+	}
+	for _, p := range k.out {
+		j.recv(p)
+	}
+	j.recv(zc)
+	k.recv(zc)
+	fmt.Fprintf(w, "NOTE late fork: heights i=%d j=%d k=%d\n", i.height, j.height, k.height)
+	endRun(w, mon, i, j, k)
 }
